@@ -17,21 +17,29 @@ RULE = ("schemas with nested schemas, config types, lists of schemas / config ty
         "labels invalid (every JSON-like and Python type: dict for scalar, scalar for container, inf, huge ints, "
         "bytes, object()) is offered through every route: attribute on the owning (sub)configuration, dotted path from "
         "the root, constructor keyword (nested through maps), load_tree, loads in each format that can carry the value, "
-        "each also after a prior load (which replaces sub-configurations); the exception classifier M-exc demands "
+        "each also after a prior load (which replaces sub-configurations); where a configuration type is on the way also the "
+        "keywords of that type's own constructor (tctor; ~40% of the schemas hold a type with typed dicts, directly and in a section, "
+        "and a list of configurations with a required field, whose entries / unfinished item objects are always offered to it); typed "
+        "lists whose item field has a validator callback are given a list that holds the one item the callback refuses; "
+        "the exception classifier M-exc demands "
         "cincoconfig.ValidationError (a ValueError), ref_path == the declared path (a.b[2].c, d[key]) and a message "
         "starting with that path (plus ' (name)' for a friendly name); non-trivial = >= 3 rejections judged over >= 2 "
         "routes; distinct = distinct (schema, probes)")
 REQUIRED = ("lists_reassigned_from_themselves_then_reordered", "values_offered_to_names_that_take_none", "xml_documents_with_a_typed_element_whose_text_does_not_parse", "schemas_with_an_include_field_inside_a_config_type", "schemas_with_sections_created_by_a_deep_dotted_name", "rejections_by_validator_callback:fail-empty", "schemas_with_sections_named_like_config_methods", "sections_nested_in_a_section_of_the_same_name", "cases_with_library_warnings_as_errors", "duplicate_key_documents", "moved_object_probes:list-item", "moved_object_probes:section", "schemas_with_premounted_fragments", "object_item_probes", "reordered_list_probes", "pos:dict-key", "rejections_judged", "route:attr", "route:dotted", "route:ctor", "route:load_tree", "route:loads", "pos:nested",
             "pos:ctype", "pos:list-item", "pos:dict-entry", "pos:list-scalar", "pos:subconfig-slot", "friendly_names_judged",
             "after_prior_load")
+REQUIRED += ("rejections_by_item_validator_of_a_typed_list", "route:tctor", "type_constructor_probes:dict-entry",
+             "type_constructor_probes:dict-key", "type_constructor_probes:object-items")
 ASSUMPTIONS = ["unknown keys (AttributeError) and non-map top-level documents are not 'a value for a declared field'",
                "direct proxy mutation (cfg.l.append(x)) is not a listed route",
-               "for a rejected scalar item of a typed list the offending field is the list field itself"]
+               "for a rejected scalar item of a typed list the offending field is the list field itself",
+               "the configuration built by the constructor of a configuration type is the root of the paths in that constructor's errors"]
 FMT_FOR_LOADS = ["json", "yaml", "pickle", "bson", "xml"]
 BAD_WILD = [{"a": 1}, [1], 1.5, float("inf"), 10**30, b"xy", Opaque(), True, "", "x y z !", -1, (1, 2), None]
 
 
 SENTINEL = {"int": "424242", "port": "4242", "float": "4242.5", "str": "reject-me", "host": "reject.me"}
+ITEM_SENTINEL = {"int": 424242, "port": 4242, "float": 4242.5, "str": "reject-me", "host": "reject.me"}
 
 
 def generate(rng, ctx):
@@ -118,6 +126,27 @@ def generate(rng, ctx):
         schema["fields"].append({"kind": "schema", "key": "dz", "style": "dotted", "fields": [
             {"kind": "schema", "key": "dy", "style": "dotted", "fields": leaves}]})
         schema["deep_dotted"] = True
+    # a configuration type that holds typed dicts (directly and in a section of its own) and a list of configurations with a
+    # required field: its constructor is handed entries / items to refuse (the configuration it builds is the root of the path)
+    if rng.random() < 0.4:
+        holders = [schema] + [ch for ch in schema["fields"] if ch["kind"] == "schema"]
+        holder = rng.choice(holders)
+        if all(ch["key"] != "tcx" for ch in holder["fields"]):
+            def typed_dict(key):
+                vf = gen.gen_field(rng, rng.choice(["int", "int", "port", "float", "bool", "ipv4", "net", "host"]), 0)
+                return {"kind": "field", "key": key, "family": "dict", "params": {}, "keyf": {"kind": "field", "family": "str", "params": {}},
+                        "valf": vf}
+            mschema = {"kind": "schema", "key": "", "fields": [
+                {"kind": "field", "key": "name", "family": "str", "params": {"required": True}},
+                {"kind": "field", "key": "n", "family": "int", "params": {}}]}
+            item = mschema if rng.random() < 0.4 else {"kind": "ctype", "key": "", "name": "MemberT", "schema": mschema}
+            kids = [typed_dict("quota"),
+                    {"kind": "schema", "key": "limits", "fields": [typed_dict("per_user"), {"kind": "field", "key": "m", "family": "int", "params": {}}]},
+                    {"kind": "field", "key": "members", "family": "list", "params": {}, "item": item},
+                    {"kind": "field", "key": "size", "family": "int", "params": {}}]
+            rng.shuffle(kids)
+            holder["fields"].append({"kind": "ctype", "key": "tcx", "name": "TeamT", "schema": {"kind": "schema", "key": "", "fields": kids}})
+            schema["type_with_containers"] = True
     # some sub-schemas are reusable fragments: built and used on their own before being mounted; others come into being
     # by attribute access, by item access or by the dotted name of their first field
     mounted = 0
@@ -164,15 +193,33 @@ def generate(rng, ctx):
             keep = {k: v for k, v in nd["params"].items() if k in ("name", "required")}
             nd["params"] = dict(keep, validator="%s@%s" % (rng.choice(["fail", "fail-empty", "assert-empty", "keyerror-empty", "multiline"]),
                                                            SENTINEL[nd["family"]]))
+    # typed lists whose ITEM field carries a validator callback that rejects one particular (otherwise acceptable) item; the
+    # item field keeps its options (the declared default of the list was made for them)
     env = gen.GEN_ENV
+    for p0, nd in spec.walk(schema):
+        if nd["kind"] == "field" and nd["family"] == "list" and nd.get("item") and nd["item"]["kind"] == "field" \
+                and nd["item"]["family"] in SENTINEL and rng.random() < 0.6:
+            fam = nd["item"]["family"]
+            ok, norm = model.accepts(nd["item"], ITEM_SENTINEL[fam], env)
+            if ok is True and str(norm) == SENTINEL[fam] and not nd["item"]["params"].get("validator"):
+                how = rng.choice(["fail", "fail", "fail-empty", "assert-empty", "keyerror-empty", "multiline"])
+                nd["item"]["params"] = dict(nd["item"]["params"], validator="%s@%s" % (how, SENTINEL[fam]))
     targets = enumerate_targets(schema)
     rng.shuffle(targets)
+    always = []
+    if schema.get("type_with_containers"):
+        # two of the positions inside that configuration type are always probed, through its constructor (last of all: the other
+        # routes to a typed dict inside a configuration type run into known finding K2, which ends the case)
+        always = [t for t in targets if "tcx" in t["path"].split(".")[:-1] and t["pos"] in ("dict-entry", "dict-key", "list-item")][:2]
+        # (the general sample below leaves the positions inside that type alone: most routes to them meet K1 / K2)
+        targets = [t for t in targets if not {"tcx", "tcx_tw"} & set(t["path"].replace("[]", "").split("."))]
     probes = []
-    for tgt in targets[: rng.randrange(3, 10 if thorough else 7)]:
+    for tgt in targets[: rng.randrange(3, 10 if thorough else 7)] + always:
         nd = tgt["node"]
         bad = None
         forced = nd.get("params", {}).get("validator") if nd.get("kind") == "field" and tgt["pos"] in ("root", "nested", "ctype", "list-item") else None
-        if forced and rng.random() < 0.7:
+        by_type = any(tgt is t for t in always)
+        if forced and rng.random() < 0.7 and not by_type:
             # the one value the callback rejects (it passes the field's own checks)
             bad = {"int": 424242, "port": 4242, "float": 4242.5, "str": "reject-me", "host": "reject.me"}[nd["family"]]
             forced = forced.split("@")[0]
@@ -212,12 +259,40 @@ def generate(rng, ctx):
         if tgt["pos"] == "subconfig-slot" and bad is None:
             bad = 5
         routes = ["attr", "dotted", "ctor", "load_tree", "loads"]
-        probes.append({"pos": tgt["pos"], "path": tgt["path"], "bad": bad, "routes": rng.sample(routes, rng.choice([2, 3, 5])),
+        routes = rng.sample(routes, rng.choice([2, 3, 5]))
+        if by_type:
+            routes = ["tctor"]
+        elif _ctype_prefixes(schema, tgt["path"].replace("[]", "[0]")) and rng.random() < 0.7:
+            # the constructor of a configuration TYPE on the way (Type(**keywords)), which is the root of what it builds
+            routes.append("tctor")
+        probes.append({"pos": tgt["pos"], "path": tgt["path"], "bad": bad, "routes": routes,
                        "index": rng.choice([0, 0, 1, 2]), "nitems": rng.choice([1, 2, 3]), "equal_items": rng.random() < 0.5,
                        "key": rng.choice(["k1", "kk", "a.b", "K"]), "fmt": rng.choice(FMT_FOR_LOADS),
                        "prior_load": rng.random() < 0.4, "reorder": rng.choice([None, None, "insert0", "pop0", "reverse", "swap", "swap", "rotate", "reassign-plus", "reassign-copy", "reassign-front"]),
                        "object_items": rng.random() < 0.5, "moved": rng.random() < 0.5, "dupkey": rng.random() < 0.3,
                        "move_how": rng.choice(["append", "setitem", "assign", "insert0"])})
+    # every typed list whose item field has a validator callback: a list that holds the one item the callback rejects, among
+    # items it lets through, by every route
+    for tgt in targets:
+        vspec = tgt["node"].get("params", {}).get("validator") if tgt["pos"] == "list-scalar" else None
+        if not vspec:
+            continue
+        fam = tgt["node"]["family"]
+        oks = [v for v in (gen.one_value(rng, tgt["node"], "valid", env) for _ in range(4))
+               if v is not None and isinstance(v, (int, float, str)) and v == v and str(v) != SENTINEL[fam]
+               and str(model.accepts(tgt["node"], v, env)[1]) != SENTINEL[fam]]
+        if not oks:
+            continue
+        routes = ["attr", "dotted", "ctor", "load_tree", "loads"]
+        routes = rng.sample(routes, rng.choice([3, 4, 5]))
+        if _ctype_prefixes(schema, tgt["path"].replace("[]", "[0]")) and rng.random() < 0.7:
+            routes.append("tctor")
+        probes.append({"pos": "list-scalar", "path": tgt["path"], "bad": ITEM_SENTINEL[fam], "routes": routes,
+                       "index": rng.choice([0, 0, 1, 2]), "nitems": rng.choice([1, 2, 3]), "equal_items": rng.random() < 0.5, "key": "k1",
+                       "fmt": rng.choice(FMT_FOR_LOADS), "prior_load": rng.random() < 0.3, "reorder": None, "object_items": False, "moved": False,
+                       "by_callback": vspec.split("@")[0], "item_callback": True,
+                       "before": [rng.choice(oks) for _ in range(rng.choice([0, 1, 2]))],
+                       "after": [rng.choice(oks) for _ in range(rng.choice([0, 0, 1]))]})
     for path in incs:
         # names with characters that mean something to string formatting, globbing, shells
         name = rng.choice(["missing-file.cfg", "db%20settings.json", "shard-%d.json", "%s", "backup-%(host)s.json", "100%.cfg", "a%%b.cfg",
@@ -331,6 +406,8 @@ def _run(case, ctx, res, cc, env, rng, judged, routes_seen):
                 res.count("duplicate_key_documents")
             if pr.get("by_callback") and err is not None:
                 res.count("rejections_by_validator_callback:" + pr["by_callback"])
+            if pr.get("item_callback") and err is not None:
+                res.count("rejections_by_item_validator_of_a_typed_list")
             if "moved-from-sibling" in feat:
                 res.count("moved_object_probes:" + feat.split(":")[0])
             if feat.endswith(":object-items") or pr.get("object_items"):
@@ -476,6 +553,14 @@ def attempt_objects(cc, drv, pr, route, rng):
         return _call(lambda: cfg.__setitem__(list_path, objs)), want, fname, feat0
     if route == "ctor" and "." not in list_path:
         return _call(lambda: drv.built.schema(**{list_path: objs})), want, fname, "list-item:object-items"
+    if route == "tctor" and owner_path and "[" not in owner_path:
+        # the list is a field of a section declared with a configuration type: the objects are handed to the type's constructor
+        onode = spec.node_at(root, owner_path)
+        cls = _type_of(drv, onode) if onode is not None and onode["kind"] == "ctype" else None
+        if cls is None:
+            return None
+        drv.res.count("type_constructor_probes:object-items")
+        return _call(lambda: cls(**{leaf: objs})), "%s[%d].%s" % (leaf, idx, parts[-1]), fname, "list-item:object-items"
     return None
 
 
@@ -634,7 +719,7 @@ def attempt(cc, ctx, drv, pr, route, rng):
         got = attempt_moved(cc, drv, pr, route, rng)
         if got is not None:
             return got
-    if pr.get("object_items") and pr["pos"] == "list-item" and route in ("attr", "dotted", "ctor"):
+    if pr.get("object_items") and pr["pos"] == "list-item" and route in ("attr", "dotted", "ctor", "tctor"):
         got = attempt_objects(cc, drv, pr, route, rng)
         if got is not None:
             return got
@@ -693,6 +778,8 @@ def attempt(cc, ctx, drv, pr, route, rng):
         feat = "dict-entry-below-list-or-ctype" if (list_levels or _in_ctype(root, concrete)) else "dict-key"
     elif pos == "list-scalar":
         value = [value]
+        if pr.get("item_callback"):
+            value = spec.realize(cc, copy.deepcopy(pr["before"])) + value + spec.realize(cc, copy.deepcopy(pr["after"]))
     elif pos == "include":
         feat = "include"
     if not _tree_ok(value) and route in ("loads",):
@@ -791,8 +878,30 @@ def attempt(cc, ctx, drv, pr, route, rng):
     # tree-shaped routes: put the bad value at its place inside a complete valid tree, so that it is the only
     # thing wrong; the value must be invalid on this route too (documents carry on-disk forms)
     label_node = {"dict-entry": node.get("valf"), "dict-key": node.get("keyf"), "list-scalar": node.get("item")}.get(pos, node)
-    if pos not in ("subconfig-slot", "include") and label_node is not None:
-        top_level_ctor = route == "ctor" and "." not in concrete and "[" not in concrete
+    tprefix = None
+    if route == "tctor":
+        # the constructor of one of the configuration types on the way: the configuration it builds is the root of the path
+        cands = _ctype_prefixes(root, concrete)
+        if not cands:
+            return None
+        tprefix = rng.choice(cands)
+        tcls = _type_of(drv, spec.node_at(root, re.sub(r"\[\d+\]", "[0]", tprefix)))
+        if tcls is None:
+            return None
+        rel = concrete[len(tprefix) + 1:]
+        want = want[len(tprefix) + 1:]
+        if pos in ("dict-entry", "dict-key"):
+            below = "[" in rel or any(len(c) > len(tprefix) for c in cands)
+            feat = "dict-entry-below-list-or-ctype" if below else pos
+        elif pos == "subconfig-slot":
+            feat = "subconfig-slot"
+        elif pos != "include":
+            feat = pos + ":type-constructor"
+    if pr.get("item_callback"):
+        pass  # (the model does not know the callback: the value is rejected by it on every route, nothing to label)
+    elif pos not in ("subconfig-slot", "include") and label_node is not None:
+        top_level_ctor = (route == "ctor" and "." not in concrete and "[" not in concrete) or (
+            route == "tctor" and "." not in rel and "[" not in rel)
         lab = model.accepts(label_node, bad, drv.env)[0] if top_level_ctor else model.accepts_disk(label_node, bad, drv.env)[0]
         if lab is not False:
             return None
@@ -817,6 +926,15 @@ def attempt(cc, ctx, drv, pr, route, rng):
         _put(doc, concrete.split("."), value)
     if route == "ctor":
         return _call(lambda: drv.built.schema(**doc)), want, fname, feat
+    if route == "tctor":
+        try:
+            sub = _sub(doc, tprefix)
+        except (KeyError, IndexError, TypeError):
+            return None
+        if not isinstance(sub, dict) or not all(isinstance(k, str) for k in sub):
+            return None
+        drv.res.count("type_constructor_probes:" + pos)
+        return _call(lambda: tcls(**sub)), want, fname, feat
     if route == "load_tree":
         return _call(lambda: cfg.load_tree(doc)), want, fname, feat
     if route == "loads":
@@ -846,6 +964,33 @@ def attempt(cc, ctx, drv, pr, route, rng):
             feat = "subconfig-slot:loads"
         return _call(lambda: cfg.loads(blob, fmt)), want, fname, feat
     return None
+
+
+def _ctype_prefixes(root, concrete):
+    """The proper prefixes of a concrete path (a.b[1].c) that name a configuration of a configuration TYPE: a section
+    declared with a type, or an item of a list of a type."""
+    parts = concrete.split(".")
+    out = []
+    for i in range(1, len(parts)):
+        prefix = ".".join(parts[:i])
+        nd = spec.node_at(root, re.sub(r"\[\d+\]", "[0]", prefix))
+        if nd is not None and nd["kind"] == "ctype":
+            out.append(prefix)
+    return out
+
+
+def _type_of(drv, nd):
+    """The class that spec.build made for a config-type node."""
+    return drv.built.types.get((nd.get("name") or "T", nd["schema"].get("share") or id(nd)))
+
+
+def _sub(doc, prefix):
+    cur = doc
+    for seg in prefix.split("."):
+        cur = cur[re.sub(r"\[\d+\]", "", seg)]
+        for i in re.findall(r"\[(\d+)\]", seg):
+            cur = cur[int(i)]
+    return cur
 
 
 def _default_ctype_on_path(root, concrete, loaded):
